@@ -201,8 +201,16 @@ def binaryRules (red : Op → Except PyErr Op) : List BRule :=
     indexTransposeRule, transposeIndexRule, quRotationRule, quRotationHWPRule,
     linearPolarizerHWPRule ]
 
+/-- `new_ops = identity_rule.apply(new_ops)` right after a rule fired -/
+def dropIdentities (ru : BRule) : BRule where
+  name := ru.name
+  fire l r :=
+    match ru.fire l r with
+    | .ok (some new) => .ok (some (identityRule new))
+    | other => other
+
 def reductionCfg (red : Op → Except PyErr Op) : Cfg Op PyErr where
-  rules := binaryRules red
+  rules := (binaryRules red).map dropIdentities
   isHom := isHomothety
   homRule := homothetyRule
 
